@@ -37,18 +37,18 @@ func OpID(ctx context.Context) int {
 
 // Call is one recorded storage call.
 type Call struct {
-	Seq    int
-	Op     int
-	Method string
-	Keys   []string   // string arguments (signatures, ids, codes, uris)
-	Form   url.Values // form of the request handed to storage (if any)
-	ReqID  string
-	Client string
-	Err    string // "" ok, otherwise short class
-	Write  bool
-	Tx     bool // inside an open transaction (the call carried the transaction's context)
+	Seq     int
+	Op      int
+	Method  string
+	Keys    []string   // string arguments (signatures, ids, codes, uris)
+	Form    url.Values // form of the request handed to storage (if any)
+	ReqID   string
+	Client  string
+	Err     string // "" ok, otherwise short class
+	Write   bool
+	Tx      bool // inside an open transaction (the call carried the transaction's context)
 	Outside bool // a write performed while a transaction is open but WITHOUT the transaction's context
-	Inject string
+	Inject  string
 }
 
 func (c Call) String() string {
@@ -76,10 +76,10 @@ type IStore struct {
 	Mem  *storage.MemoryStore
 	Mode Mode
 
-	mu      sync.Mutex
-	seq     int
-	Record  bool
-	Calls   []Call
+	mu     sync.Mutex
+	seq    int
+	Record bool
+	Calls  []Call
 	// Pre is consulted before each delegated call (after gating). A non-nil
 	// error is returned to fosite instead of performing the call. It may panic
 	// with Crash{} to simulate a process crash.
